@@ -101,6 +101,7 @@ func renderStructLit(v ssa.Value, s *Symer) string {
 
 func runC27(c *Ctx) {
 	c27NextQuery(c)
+	queryFragmentBinding(c, "Q3-fragment-binding")
 	bd := boolDom()
 	// V1
 	pp := "private/storage/path/sqlite."
